@@ -599,7 +599,7 @@ func init() {
 	Register(&Engine{
 		Prop: "C18", Name: "txnsim", Run: runC18,
 		Trials: map[string]int{"quick": 100000, "thorough": 1000000},
-		Rule:   "sequential mode (3 of 4 trials): 1-3 transactions of 0-7 calls (Get/GetHandler/Set/SetHandler/Abort over 3 keys; handlers that succeed, fail or abort) with an ending drawn from Commit, Abort, Abort+Commit, Commit+Abort, Abort+Abort, on the real in-memory store's transactions and on the serial fallback over a SimStore (one injected Get/Set fault in a third of those), judged against a map model: result count, order, op ids, values, errors; after every ending a fresh transaction must open, read the model's contents and commit (a store left locked is a deterministic deadlock verdict through the lock gates, a double unlock kills the worker and is attributed to the trial); concurrent mode: 2-3 transactions on the real in-memory store as tasks under the seeded scheduler with gates before the store lock and between calls, judged for isolation; non-trivial = the judged phase was reached; distinct = event-log hash",
+		Rule:   "sequential mode (3 of 4 trials): 1-3 transactions of 0-7 calls (Get/GetHandler/Set/SetHandler/Abort over 3 keys; handlers that succeed, fail or abort) with an ending drawn from Commit, Abort, Abort+Commit, Commit+Abort, Abort+Abort, on the real in-memory store's transactions and on the serial fallback over a SimStore (one injected Get/Set fault in a third of those), judged against a map model: result count, order, op ids, values, errors; after every ending a fresh transaction must open, read the model's contents and commit (a store left locked is a deterministic deadlock verdict through the lock gates, a double unlock kills the worker and is attributed to the trial); concurrent mode: 2-3 transactions on the real in-memory store as tasks under the seeded scheduler with gates before the store lock and between calls, judged for isolation; non-trivial = the judged phase was reached; distinct = event-log hash One transaction in ten has 12-41 calls; handlers may perform a further Get on the transaction (results are then matched by operation id).",
 		Components: map[string][]string{
 			"real": {"mem store transaction (real mutex, probed by TryLock)", "keyvalue.TransactionOrSerial / unsafeSerialTransaction"},
 			"stub": {"SimStore under the serial fallback"},
